@@ -226,32 +226,38 @@ class ExpressionParser:
 
     def parse_mult(self) -> MathExpression:
         self.check(_FIRST_EXP, True)
-        exp = self.parse_exponent()
+        # A chain a*b/c*... groups to the right: a*(b/(c*...)). Operands are
+        # collected in a loop and folded from the right afterwards, so that a
+        # long flat chain costs no Python stack (nesting 0 is not deep input).
+        operands: List[MathExpression] = [self.parse_exponent()]
+        operators: List[int] = []
         while self.check(_IS_MULT):
             opType = self.current_token.type
             opValue = self.current_token.value
             self.eat(opType)
-            expected = self.check(_FIRST_EXP)
-            right = None
-            if expected:
-                right = self.parse_mult()
-
-            if not expected or right is None:
+            if not self.check(_FIRST_EXP):
                 assert self._all_tokens is not None
                 input_str = "".join([str(f.value) for f in self._all_tokens])
                 raise InvalidSyntax(
                     f"Expected an expression after * or / operator, got: {opValue}"
                     f"\nFull input: {input_str}"
                 )
-
-            if opType == TOKEN_TYPES.Multiply:
-                exp = MultiplyExpression(exp, right)
-            elif opType == TOKEN_TYPES.Divide:
-                exp = DivideExpression(exp, right)
-            else:  # pragma: nocover
+            if opType not in (
+                TOKEN_TYPES.Multiply,
+                TOKEN_TYPES.Divide,
+            ):  # pragma: nocover
                 raise UnexpectedBehavior(
                     "Expected mult or divide, got: {}".format(opValue)
                 )
+            operators.append(opType)
+            operands.append(self.parse_exponent())
+        exp = operands.pop()
+        while operators:
+            left = operands.pop()
+            if operators.pop() == TOKEN_TYPES.Multiply:
+                exp = MultiplyExpression(left, exp)
+            else:
+                exp = DivideExpression(left, exp)
         return exp
 
     def parse_exponent(self) -> MathExpression:
